@@ -310,19 +310,47 @@ class Interp2(Interp):
             if isinstance(o, tuple):
                 return tuple(its)
             return self.alloc(ListCell(items=its))
+        def explicit(t):
+            ln = self.unique_value(z3.Length(t))
+            if ln is not None and ln <= 64:
+                return self.rw(self.mk_concat([z3.Unit(self.rw(t[k])) for k in range(ln - 1, -1, -1)]))
+            return seq_rev(self, t)
         if isinstance(o, SSeq):
-            return SSeq(seq_rev(self, o.t), str if issubclass(o.cls, str) else bytes)
+            return SSeq(explicit(o.t), str if issubclass(o.cls, str) else bytes)
         if isinstance(o, Ref):
             c = self.cell(o)
             if isinstance(c, BACell):
-                return self.alloc(BACell(seq_rev(self, c.t)))
+                return self.alloc(BACell(explicit(c.t)))
             if isinstance(c, ListCell) and c.ek is KINT:
                 return self.alloc(ListCell(t=seq_rev(self, c.t), ek=KINT))
         raise OutOfReach('reverse of %r' % (o,))
 
     # --------------------------------------------------------------- iteration
+    def custom_iter(self, v):
+        """__iter__ defined by a repository class (e.g. CScript, CScriptWitness)?"""
+        t = self.pytype(v)
+        if not isinstance(t, type) or t in (bytes, str, tuple, list, dict, set, frozenset, bytearray, range):
+            return None
+        if isinstance(v, (GenVal, Ref)) and not (isinstance(v, Ref) and isinstance(self.cell(v), ObjCell)):
+            return None
+        raw = self.find_class_attr(t, '__iter__')
+        if isinstance(raw, types.FunctionType):
+            return raw
+        return None
+
     def try_iter_concrete(self, v):
         """List of element values if v has a concrete spine, else None."""
+        ci = self.custom_iter(v)
+        if ci is not None:
+            if is_sym(v) or isinstance(v, Ref):
+                g = self.call_value(ci, [v], {})
+                if isinstance(g, GenVal) and g.kind == 'genfn':
+                    g = self.run_generator(g)
+                return self.try_iter_concrete(g) if not (isinstance(g, GenVal)) else None
+            try:
+                return list(v)          # concrete instance: the real __iter__ runs natively
+            except Exception as e:
+                self.raise_exc(type(e))
         if isinstance(v, (tuple, list)):
             return list(v)
         if isinstance(v, (bytes, bytearray)):
@@ -347,6 +375,15 @@ class Interp2(Interp):
                 cs = self.concrete_seq(c.t)
                 if cs is not None:
                     return cs
+                ln = self.unique_value(z3.Length(c.t))
+                if ln is not None and ln <= 64:
+                    out = []
+                    for k in range(ln):
+                        e = self.rw(c.t[k])
+                        if not z3.is_int_value(e):
+                            self.fact(z3.And(e >= 0, e < 256))
+                        out.append(self.wrap_int(e))
+                    return out
             return None
         if isinstance(v, SSeq):
             cs = self.concrete_seq(v.t)
@@ -809,8 +846,18 @@ class Interp2(Interp):
         try:
             if isinstance(node, ast.Lambda):
                 return self.eval(node.body)
-            if self.is_generator(node):
-                raise OutOfReach('generator function %s without step contract' % fr.fname)
+            if self.is_generator(node) and self.gen_unit and getattr(fr, 'collect', None) is None \
+                    and self.depth == 1:
+                fr.collect = []
+            if self.is_generator(node) and getattr(fr, 'collect', None) is None:
+                # calling a generator function creates a lazy generator object
+                self.frame = saved
+                self.depth -= 1
+                try:
+                    return self.make_generator(fr, node)
+                finally:
+                    self.depth += 1
+                    self.frame = fr
             try:
                 self.exec_block(node.body)
             except ReturnSig as r:
@@ -819,6 +866,15 @@ class Interp2(Interp):
         finally:
             self.depth -= 1
             self.frame = saved
+
+    gen_unit = False
+
+    def make_generator(self, fr, node):
+        from bitcoin.core.script import CScript
+        code = getattr(fr, 'code', None)
+        if code is CScript.raw_iter.__code__:
+            return GenVal('rawiter', fr.env['self'])
+        return GenVal('genfn', (fr, node))
 
     _gen_cache = {}
 
